@@ -270,6 +270,32 @@ theorem closest_vals {P : Nat → V → Prop} {c : Cfg V} {now : Nat} {t : Table
       exact ih _ (applyAt_vals h)
   exact this l _ h.bump
 
+/-- Every node `closest_values` yields satisfies the value predicate of the table it was read from. -/
+theorem closest_out_vals {P : Nat → V → Prop} {c : Cfg V} {now : Nat} {t : Table V} {target : Nat}
+    (h : TVals P t) : ∀ n ∈ (t.closest c now target).2, P n.key n.value := by
+  unfold Table.closest
+  generalize bucketOrder (t.localKey ^^^ target) = l
+  have : ∀ (l : List Nat) (acc : Table V × List (Node V)), TVals P acc.1 →
+      (∀ n ∈ acc.2, P n.key n.value) →
+      ∀ n ∈ (l.foldl (fun (acc : Table V × List (Node V)) i =>
+        let t1 := Table.applyAt c now acc.1 i
+        (t1, acc.2 ++ sortByDist target (t1.bucket i).nodes)) acc).2, P n.key n.value := by
+    intro l
+    induction l with
+    | nil => intro acc _ h2; exact h2
+    | cons i l ih =>
+      intro acc h1 h2
+      rw [List.foldl_cons]
+      have h1' : TVals P (Table.applyAt c now acc.1 i) := applyAt_vals h1
+      refine ih _ h1' ?_
+      intro n hn
+      rcases List.mem_append.mp hn with hn | hn
+      · exact h2 n hn
+      · have hm : n ∈ ((Table.applyAt c now acc.1 i).bucket i).nodes :=
+          (List.mergeSort_perm _ _).mem_iff.mp hn
+        exact (h1'.bucket i).1 n hm
+  exact this l _ h.bump (by intro n hn; cases hn)
+
 theorem applyForDistances_vals {P : Nat → V → Prop} {c : Cfg V} {now m : Nat} (ds : List Nat)
     (t : Table V) (count : Nat) (h : TVals P t) : TVals P (applyForDistances c now m ds t count) := by
   induction ds generalizing t count with
